@@ -141,6 +141,14 @@ def ob_decomposition(gridname, family, k):
             for kw_r in (kw_t, EDGE_VARIANTS[1]):
                 test = api.function_space(grid, "SNC", 0, **kw_t)
                 trial = api.function_space(grid, "RWG", 0, **kw_r)
+                if kw_r is kw_t and not (np.array_equal(test.support, trial.support) and np.array_equal(test.local2global, trial.local2global)
+                                         and np.array_equal(test.local_multipliers, trial.local_multipliers) and test.global_dof_count == trial.global_dof_count):
+                    # "complex symmetric when test and trial come from the same edge space": SNC and RWG built with the same options are that space (same support,
+                    # dof map and multipliers); with equal maps the decomposition below is symmetric term by term
+                    return violated("SNC and RWG spaces built on %s with the same options %s are not the same edge space: supports %s / %s, %d / %d dofs" % (
+                        gridname, kw_t, np.flatnonzero(test.support).tolist(), np.flatnonzero(trial.support).tolist(), test.global_dof_count, trial.global_dof_count),
+                        witness={"grid": gridname, "options": kw_t}, signature="decomposition/maxwell/same-edge-space",
+                        replay={"callable": "checks.c06:replay_decomposition", "kwargs": {"gridname": gridname, "family": family, "k": [np.real(k), np.imag(k)]}, "confirmed": True})
                 A = Z.dense(Z.boundary_operator("maxwell_electric", trial, trial, test, par, wavenumber=k))
                 Rt, Dt = _maps_rwg(test, grid)
                 Rr, Dr = _maps_rwg(trial, grid)
